@@ -7,6 +7,7 @@ import (
 	"sort"
 	"strings"
 
+	"github.com/0chain/common/core/statecache"
 	"github.com/0chain/common/core/util"
 
 	"verif/harness/refmpt"
@@ -39,6 +40,18 @@ func ExecTree(sc sim.Script) *sim.Outcome {
 }
 
 func (w *world) has(p string) bool { return w.prop == p }
+
+// observer returns the trie object through which the harness reads t's
+// content.  Reading through t itself warms t's node cache with private copies,
+// which changes what later operations fetch; in "fresh" runs every harness
+// read goes through a throw-away trie object on the same store, root and
+// version with an empty cache, so the trie under test is not perturbed.
+func (w *world) observer(t *inst) *util.MerklePatriciaTrie {
+	if w.s.Observe != "fresh" {
+		return t.mpt
+	}
+	return util.NewMerklePatriciaTrie(t.db, util.Sequence(t.ver), t.mpt.GetRoot(), statecache.NewEmpty())
+}
 
 func (w *world) hasOpenChildren(t *inst) bool {
 	for _, c := range w.tries {
@@ -129,6 +142,7 @@ func (w *world) opChild(p *inst) {
 		c.model[k] = v
 	}
 	c.degraded = p.degraded
+	c.stale = p.stale
 	if w.s.Cache == "shared" {
 		c.tc = w.newCache()
 	} else {
@@ -145,6 +159,7 @@ func (w *world) markStale(parent *inst) {
 	for _, c := range w.tries {
 		if c.parent == parent && c.open {
 			c.stale = true
+			w.markStale(c) // and everything opened below it
 		}
 	}
 }
@@ -286,7 +301,11 @@ func (w *world) lookup(t *inst, p string, how string) {
 	var got []byte
 	var err error
 	w.faultMark()
-	if w.guard(fmt.Sprintf("GetNodeValueRaw(%q)", p), func() { got, err = t.mpt.GetNodeValueRaw(util.Path(p)) }) {
+	m := t.mpt
+	if how != "get" {
+		m = w.observer(t)
+	}
+	if w.guard(fmt.Sprintf("GetNodeValueRaw(%q)", p), func() { got, err = m.GetNodeValueRaw(util.Path(p)) }) {
 		return
 	}
 	relaxed := t.degraded || w.faultHit()
@@ -327,7 +346,7 @@ func (w *world) lookup(t *inst, p string, how string) {
 	}
 	if err == nil && w.v == nil {
 		var sv util.SecureSerializableValue
-		if e2 := t.mpt.GetNodeValue(util.Path(p), &sv); e2 != nil || !bytes.Equal(sv.Buffer, got) {
+		if e2 := m.GetNodeValue(util.Path(p), &sv); e2 != nil || !bytes.Equal(sv.Buffer, got) {
 			w.fail(oracle, "getnodevalue-disagrees", "GetNodeValue(%q) = %q,%v but raw = %q", p, sv.Buffer, e2, got)
 		}
 	}
@@ -354,7 +373,7 @@ func (w *world) checkContent(t *inst, how string) {
 	var list []kv
 	var err error
 	w.faultMark()
-	if w.guard("Iterate", func() { got, list, err = content(t.mpt) }) {
+	if w.guard("Iterate", func() { got, list, err = content(w.observer(t)) }) {
 		return
 	}
 	relaxed := t.degraded || w.faultHit() || (w.has("C03") && t.stale)
@@ -394,8 +413,9 @@ func (w *world) opMerge(c *inst) {
 	parentRoot := p.mpt.GetRoot()
 	childRoot := c.mpt.GetRoot()
 	var childView map[string]string
+	var childViewErr error
 	if w.has("C03") {
-		childView, _, _ = content(c.mpt)
+		childView, _, childViewErr = content(w.observer(c))
 	}
 	var err error
 	w.faultMark()
@@ -444,8 +464,11 @@ func (w *world) opMerge(c *inst) {
 			if !bytes.Equal(p.mpt.GetRoot(), childRoot) {
 				w.fail("c03.merge", "merged-root", "after merge parent root %x != child root %x", p.mpt.GetRoot(), childRoot)
 			}
-			pv, _, perr := content(p.mpt)
-			if perr != nil {
+			pv, _, perr := content(w.observer(p))
+			if c.stale && (childViewErr != nil || perr != nil) {
+				// a stale child (its parent chain moved on) may be unreadable; only its rejection/acceptance is checked
+				w.stats.Inc("relaxed.stale-merge-view")
+			} else if perr != nil {
 				w.fail("c03.merge", "merged-content-unreadable", "parent unreadable after merge: %v", perr)
 			} else if d := diffMaps(childView, pv); d != "" {
 				w.fail("c03.merge", "merged-content", "parent content differs from the child's view after merge: %s", d)
@@ -481,7 +504,7 @@ func (w *world) snapshot(t *inst, withContent bool) snap {
 	var s snap
 	s.root = string(t.mpt.GetRoot())
 	if withContent {
-		c, _, err := content(t.mpt)
+		c, _, err := content(w.observer(t))
 		s.content = mapDigest(c) + fmt.Sprint(len(c))
 		if err != nil {
 			s.cerr = err.Error()
@@ -571,7 +594,7 @@ func (w *world) post(actor *inst, mut *Op, op Op) {
 				continue
 			}
 			if b, ok := snaps[t]; ok {
-				w.compareSnap(t, b, "op="+op.K, true)
+				w.compareSnap(t, b, "op="+op.K, !t.stale)
 			}
 			if w.v != nil {
 				return
